@@ -489,4 +489,14 @@ def chunks (k : Nat) : Nat → List α → List (List α)
   | 0, _ => []
   | n + 1, l => l.take k :: chunks k n (l.drop k)
 
+/-- Σ sz_k² : the number of values `block_diag_matrix(vals, sz)` consumes -/
+def sumSq : List Nat → Nat
+  | [] => 0
+  | s :: sz => s * s + sumSq sz
+
+/-- the blocks of `block_diag_matrix(vals, sz)` as (values of the block, size) pairs -/
+def varBlocks : List Nat → List Rat → List (List Rat × Nat)
+  | [], _ => []
+  | s :: sz, v => (v.take (s * s), s) :: varBlocks sz (v.drop (s * s))
+
 end PorepyVerif.C35
